@@ -28,6 +28,8 @@ func init() {
 			"Around each value: encoding vs reference table, decode(encode), canary bytes behind the ABI size, every shorter output buffer, every truncation of the encoding, extensions, " +
 			"single-byte changes, out-of-range fields, each reserved field absent / documented-size zero / one non-zero byte, three reader kinds (bytes.Buffer, bytes.Reader, file); " +
 			"every []byte handed to an encoder or constructor (GUID HOB payload, event data, digests, SP800-155 locators, reset-block GUID, VMSA reserved fields, measured page) is also handed as the head of a buffer with 0xA5-filled spare capacity: same encoding as from a tight copy, all other rules again, spare bytes untouched. " +
+			"Call sequences and reuse of values: every stream/slice decoder (and FwGUIDEntry.PopulateFromBytes) also decodes the case's encoding into a receiver that is not fresh (it decoded another random encoding of the structure before, or the caller built it holding another value) - same value, same length consumed, same re-encoding as into a fresh one; " +
+			"every event-log encoder also runs on a value object that is overwritten in place with another value between calls and on the unchanged first value again; PutVmsa is followed by the caller editing the value in place (1-3 segment registers through the pointers the value holds after the call, 0-2 integer fields), a second PutVmsa of it, a PutVmsa of a never-written sparse save area (each register left out with probability 1, 1/2 or 1/4, or the empty message) and a third PutVmsa of the first: each page must be the ABI encoding of the value handed to that very call. " +
 			"Oracle (one-directional): encoder output equals the reference encoding and touches exactly the ABI size; decode(encode(v)) = v with exactly the encoding consumed; in-range values and documented-size zero reserved fields are accepted; " +
 			"out-of-range fields and non-zero reserved fields are refused; an accepted byte string re-encodes to itself (SP800-155 trailing zero padding excepted). Refusals of malformed input are counted, never judged; a panic on malformed input counts as a refusal. " +
 			"non-trivial = distinct (structure, probe, outcome) cells",
@@ -38,6 +40,8 @@ func init() {
 			"TDVF section counts are kept below 2^27 (the count*32 wrap is C08's subject and costs gigabytes to exercise)",
 			"PAGE_INFO has unexported fields: it is driven through SnpMeasurement.Update* (digest = SHA-384 of the structure) and, for the remaining fields, by setting the unexported fields by name through reflection",
 			"CreateEFIHOBGUID pads with append(), which zeroes 1..7 bytes behind len(data) in the caller's buffer when it has spare capacity; the property is about encodings, so exactly this behaviour is counted and noted (const judgeHobPadInCallersBuffer), any other write into a caller's spare capacity is judged",
+			"CryptoAgileLog.Unmarshal appends to the receiver's Events: a log receiver that already holds events has them cleared by the harness before the judged decode; the appending itself is counted and noted (const judgeLogAppendOnReuse), not judged",
+			"PutVmsa installs empty segment messages for the registers the caller left out (a side effect on the caller's value that encodes to the same bytes); the in-place edits of the sequence probe go through whatever segment pointers the value holds after the call, as sev.prepareVmsas does with CS",
 			"size fields changed by the single-byte probe are skipped when the declared size exceeds 1 MiB (allocation behaviour is C07's subject)",
 		},
 		ShardsQuick: 8, ShardsThor: 16, TimeoutS: 600, TimeoutThor: 3000, Run: run,
@@ -261,6 +265,7 @@ var floorNames = []string{
 	"single-byte-change-refused", "single-byte-change-accepted", "log-cut-on-event-boundary-accepted", "sp800155-zero-padding-accepted",
 	"sp800155-nonzero-padding-refused", "stream-readers-all-three", "vmsa-all-fields-decoded", "pageinfo-digest-checked",
 	"encoding-independent-of-spare-capacity", "callers-spare-capacity-untouched",
+	"encoding-independent-of-earlier-calls", "vmsa-call-sequence-checked", "decode-into-used-receiver-inverts-encode",
 }
 var floors = map[string]int{}
 var matched = map[string]int{}
